@@ -256,6 +256,49 @@ theorem c18_fair_nonfatal_iff (ps : List Nat) (q : Nat) (hnd : ps.Nodup) (hps : 
     have hd : 1 ≤ q / c.length := (Nat.le_div_iff_mul_le hc0).2 (by omega)
     omega
 
+/-- **C18 (PickUpMinNonFatalQuantity for Fair).** With distinct priorities the least non-fatal
+    number of handlers is the number of priorities, when the search bound allows it — and the
+    helper reports 0 ("none") exactly when it does not. -/
+theorem c18_fair_pick_min (ps : List Nat) (max : Nat) (hnd : ps.Nodup) (hps : ps ≠ []) :
+    pickUpMin (isNonFatal ps fair) max = if ps.length ≤ max then ps.length else 0 := by
+  have hn : 0 < ps.length := List.length_pos_iff.mpr hps
+  have hiff := fun q => c18_fair_nonfatal_iff ps q hnd hps
+  rcases c18_pick_min (isNonFatal ps fair) max with ⟨h0, hall⟩ | ⟨h1, h2, h3, h4⟩
+  · rw [h0]
+    by_cases hle : ps.length ≤ max
+    · have := hall ps.length hn hle
+      rw [(hiff _).2 (Nat.le_refl _)] at this
+      exact absurd this (by simp)
+    · rw [if_neg hle]
+  · have hge : ps.length ≤ pickUpMin (isNonFatal ps fair) max := (hiff _).1 h3
+    rw [if_pos (by omega)]
+    by_cases hlt : ps.length < pickUpMin (isNonFatal ps fair) max
+    · have := h4 ps.length hn hlt
+      rw [(hiff _).2 (Nat.le_refl _)] at this
+      exact absurd this (by simp)
+    · omega
+
+/-- **C18 (PickUpMaxNonFatalQuantity for Fair).** Every quantity from the number of priorities
+    upwards is non-fatal for Fair, so the greatest one within the bound is the bound itself. -/
+theorem c18_fair_pick_max (ps : List Nat) (max : Nat) (hnd : ps.Nodup) (hps : ps ≠ []) :
+    pickUpMax (isNonFatal ps fair) max = if ps.length ≤ max then max else 0 := by
+  have hn : 0 < ps.length := List.length_pos_iff.mpr hps
+  have hiff := fun q => c18_fair_nonfatal_iff ps q hnd hps
+  rcases c18_pick_max (isNonFatal ps fair) max with ⟨h0, hall⟩ | ⟨h1, h2, h3, h4⟩
+  · rw [h0]
+    by_cases hle : ps.length ≤ max
+    · have := hall max (by omega) (Nat.le_refl _)
+      rw [(hiff _).2 hle] at this
+      exact absurd this (by simp)
+    · rw [if_neg hle]
+  · have hge : ps.length ≤ pickUpMax (isNonFatal ps fair) max := (hiff _).1 h3
+    rw [if_pos (by omega)]
+    by_cases hlt : pickUpMax (isNonFatal ps fair) max < max
+    · have := h4 max hlt (Nat.le_refl _)
+      rw [(hiff _).2 (by omega)] at this
+      exact absurd this (by simp)
+    · omega
+
 /-! Non-vacuity. -/
 example : genCombinations [3, 2, 1] [] = [[3], [3, 2], [2], [3, 1], [3, 2, 1], [2, 1], [1]] := by decide
 example : isNonFatal [1, 3, 2] fair 3 = true ∧ isNonFatal [1, 3, 2] fair 2 = false := by decide
